@@ -30,12 +30,13 @@ class CallResult:
         return "CallResult(%s ret=%s buf=%s log=%s %s)" % (self.status, self.ret, self.buf, self.log, self.detail)
 
 
-def _run_script(exe, script, timeout):
-    p = subprocess.run([exe], input=script, stdout=subprocess.PIPE, stderr=subprocess.PIPE, timeout=timeout)
+def _run_script(exe, script, timeout, stack_kb=None):
+    cmd = [exe] if not stack_kb else ["/bin/sh", "-c", "ulimit -s %d; exec %s" % (stack_kb, exe)]      # a smaller C stack for this run
+    p = subprocess.run(cmd, input=script, stdout=subprocess.PIPE, stderr=subprocess.PIPE, timeout=timeout)
     return p.returncode, p.stdout.decode("utf-8", "replace"), p.stderr.decode("utf-8", "replace")
 
 
-def run_group(exe, text, engine, calls, timeout=600):
+def run_group(exe, text, engine, calls, timeout=600, stack_kb=None):
     """calls: list of (func, hexbuf).  Returns list of CallResult, one per call.
     status: ok | error (MIR error callback; detail has the message) | crash | timeout | nocontext"""
     results = [None] * len(calls)
@@ -47,7 +48,7 @@ def run_group(exe, text, engine, calls, timeout=600):
             lines.append(("C %s %s\n" % (f, hx)).encode())
         lines.append(b"D\n")
         try:
-            rc, out, err = _run_script(exe, b"".join(lines), timeout)
+            rc, out, err = _run_script(exe, b"".join(lines), timeout, stack_kb)
         except subprocess.TimeoutExpired:
             for i in range(start, len(calls)):
                 results[i] = CallResult("timeout", detail="runner exceeded %ds" % timeout)
